@@ -41,6 +41,8 @@ type Model struct {
 	ufOrder []string
 	axioms  []*Term
 	typeTag map[string]int // interface dynamic type tags
+	tagTypes map[int]types.Type // tag -> concrete type (when known)
+	ifaceAsserts map[string]*types.Interface // impl_<name> predicates used by type assertions to interface types
 	specMode bool          // slices are pure sequences (spec function bodies)
 	noIx     bool          // plain off+i element indices (no ix function)
 }
@@ -59,7 +61,7 @@ type structField struct {
 
 func newModel(mode Mode) *Model {
 	return &Model{tb: newTB(), mode: mode, structs: map[string]*structDT{}, seqs: map[string]Sort{},
-		ufuncs: map[string]string{}, typeTag: map[string]int{}}
+		ufuncs: map[string]string{}, typeTag: map[string]int{}, tagTypes: map[int]types.Type{}, ifaceAsserts: map[string]*types.Interface{}}
 }
 
 func (m *Model) ixSort() Sort {
@@ -849,7 +851,36 @@ func (m *Model) NilIface() *Term { return m.tb.App("mkiface", SIface, m.tb.Int(0
 func (m *Model) IfaceTag(x *Term) *Term { return m.proj("i_tag", SInt, x, 0) }
 func (m *Model) IfaceVal(x *Term) *Term { return m.proj("i_val", SInt, x, 1) }
 func (m *Model) TypeTag(t types.Type) *Term {
-	return m.TypeTagByName(types.TypeString(t, nil))
+	r := m.TypeTagByName(types.TypeString(t, nil))
+	if _, isIface := t.Underlying().(*types.Interface); !isIface {
+		m.tagTypes[m.typeTag[types.TypeString(t, nil)]] = t
+	}
+	return r
+}
+
+// ImplementsAxioms: for every interface used in a type assertion and every
+// concrete dynamic type known to this unit, whether the type implements the
+// interface (decided by the Go type checker's method sets).
+func (m *Model) ImplementsAxioms() []*Term {
+	var out []*Term
+	var names []string
+	for n := range m.ifaceAsserts {
+		names = append(names, n)
+	}
+	sort.Strings(names)
+	for _, n := range names {
+		it := m.ifaceAsserts[n]
+		out = append(out, m.tb.Not(m.tb.App(n, SBool, m.tb.Int(0))))
+		var ids []int
+		for id := range m.tagTypes {
+			ids = append(ids, id)
+		}
+		sort.Ints(ids)
+		for _, id := range ids {
+			out = append(out, m.tb.Eq(m.tb.App(n, SBool, m.tb.Int(int64(id))), m.tb.Bool(types.Implements(m.tagTypes[id], it))))
+		}
+	}
+	return out
 }
 func (m *Model) TypeTagByName(k string) *Term {
 	id, ok := m.typeTag[k]
